@@ -85,7 +85,6 @@ REF_NCASES = {'H1': {'h1.sql': 17}, 'H2': {'h2_out/drv.sql': 4, 'sys.sql': 6},
 ALL_TABLES = ['driver_derivatives', 'driver_iterations', 'driver_metadata', 'global_iterations',
               'metadata', 'problem_cases', 'solver_iterations', 'solver_metadata',
               'system_iterations', 'system_metadata']
-BATCH = {'stmt': 12, 'snap': 24, 'sys': 24}
 
 _H = {'sp': None}
 _REF = {}
@@ -149,6 +148,9 @@ def _base(db):
 
 
 def _stmt_plan(hist):
+    """Statement/transaction boundaries of one history (a counting run in this worker's helper)."""
+    if ('stmt', hist) in _PLAN:
+        return _PLAN[('stmt', hist)]
     r = _rq({'op': 'count', 'hist': hist, 'mode': 'stmt'})
     ev = r.get('events') or []
     n = len(ev)
@@ -161,22 +163,28 @@ def _stmt_plan(hist):
         started[db] = (idx[0] + 1) if idx else n + 1
     # crash point k lies before event k: strictly inside a transaction iff event k-1 left one open
     inside = [0] + [1 if e[3] == 1 else 0 for e in ev]
-    return {'n': n, 'started': started, 'inside': inside, 'count_exit': r.get('exit'),
-            'count_error': r.get('child_error')}
+    _PLAN[('stmt', hist)] = {'n': n, 'pts': [{'k': k} for k in range(n + 1)], 'started': started,
+                             'inside': inside}
+    return _PLAN[('stmt', hist)]
 
 
 def _sys_plan(hist):
+    """Write-type system calls on db/journal of one history (a counting run under strace)."""
+    if ('sys', hist) in _PLAN:
+        return _PLAN[('sys', hist)]
     r = _rq({'op': 'count', 'hist': hist, 'mode': 'sys'})
+    if r.get('tracer_error'):
+        raise RuntimeError('strace failed: %s' % r['tracer_error'])
     calls = r.get('calls') or []
     seen = {}
     pts = []
     for j, nm in enumerate(calls):
         seen[nm] = seen.get(nm, 0) + 1
         pts.append({'j': j, 'sc': nm, 'm': seen[nm]})
-    # one more point per system call name beyond its last occurrence: the run completes un-killed
+    # one more point beyond the last occurrence: the run completes un-killed
     pts.append({'j': len(calls), 'sc': 'pwrite64', 'm': seen.get('pwrite64', 0) + 1})
-    return {'n': len(calls), 'pts': pts, 'count_exit': r.get('exit'),
-            'tracer_error': r.get('tracer_error')}
+    _PLAN[('sys', hist)] = {'n': len(calls), 'pts': pts}
+    return _PLAN[('sys', hist)]
 
 
 # which mechanism realises the statement-level crash points of a history:
@@ -189,35 +197,44 @@ STMT_MECH = {'quick': {'H1': 'stmt', 'H2': 'snap', 'H3': 'snap', 'H4': 'snap'},
              'thorough': {'H1': 'stmt', 'H2': 'stmt', 'H3': 'stmt', 'H4': 'stmt'}}
 
 
+# A runner case is one *part* i of P of the crash points of (history, mechanism); the worker that
+# gets it counts the boundaries itself (deterministic, cached per worker) and takes the i-th slice
+# plus the last point of the previous slice (so that the monotonicity check chains across parts).
+# So the enumeration is complete for whatever number of boundaries the tree under test has, and the
+# main process needs no helper.
+PARTS = {'stmt': 11, 'snap': 7, 'sys': 40}
+
+
 def cases(tier, seed):
     out = []
-    _PLAN.clear()
     force = os.environ.get('C18_STMT')           # development switch: 'stmt' or 'snap' for all
-    try:
+    for h in HISTS:
+        mech = force or STMT_MECH[tier][h]
+        for i in range(PARTS[mech]):
+            out.append({'hist': h, 'mode': mech, 'part': i, 'nparts': PARTS[mech]})
+    if tier == 'thorough':
         for h in HISTS:
-            sp = _stmt_plan(h)
-            mech = force or STMT_MECH[tier][h]
-            _PLAN[(h, mech)] = sp['n']
-            pts = [{'k': k} for k in range(sp['n'] + 1)]
-            b = BATCH[mech]
-            for i in range(0, len(pts), b):
-                # consecutive batches overlap by one point so that the monotonicity check chains
-                out.append({'hist': h, 'mode': mech, 'pts': pts[max(i - 1, 0):i + b],
-                            'started': sp['started'], 'n': sp['n'],
-                            'inside': sp['inside'][max(i - 1, 0):i + b], 'skip_first': int(i > 0),
-                            'xcheck': int(mech == 'stmt')})
-        if tier == 'thorough':
-            for h in HISTS:
-                sp = _sys_plan(h)
-                _PLAN[(h, 'sys')] = sp['n']
-                pts = sp['pts']
-                b = BATCH['sys']
-                for i in range(0, len(pts), b):
-                    out.append({'hist': h, 'mode': 'sys', 'pts': pts[max(i - 1, 0):i + b],
-                                'n': sp['n'], 'skip_first': int(i > 0)})
-    finally:
-        _stop()
+            for i in range(PARTS['sys']):
+                out.append({'hist': h, 'mode': 'sys', 'part': i, 'nparts': PARTS['sys']})
     return out
+
+
+def _expand(case):
+    """part i of P -> explicit crash points (replay cases carry explicit points already)."""
+    if 'pts' in case:
+        return case
+    hist, mode, i, nparts = case['hist'], case['mode'], case['part'], case['nparts']
+    plan = _sys_plan(hist) if mode == 'sys' else _stmt_plan(hist)
+    allpts = plan['pts']
+    size = -(-len(allpts) // nparts)
+    lo, hi = i * size, min((i + 1) * size, len(allpts))
+    c = {'hist': hist, 'mode': mode, 'n': plan['n'], 'pts': allpts[max(lo - 1, 0):hi] if lo < hi
+         else [], 'skip_first': int(lo > 0), 'first_part': int(i == 0)}
+    if mode != 'sys':
+        c['started'] = plan['started']
+        c['inside'] = plan['inside'][max(lo - 1, 0):hi]
+        c['xcheck'] = int(mode == 'stmt')
+    return c
 
 
 # ------------------------------------------------------------------ oracle
@@ -432,7 +449,10 @@ def _observe(hist, mode, pts):
 
 
 def check_case(case):
+    case = _expand(case)
     hist, mode, pts = case['hist'], case['mode'], case['pts']
+    if not pts:
+        return {'evals': 0, 'nontrivial': 0, 'outcome': {}, 'violations': []}
     skip_first = case.get('skip_first', 0)      # first point repeats the previous batch's last
     started = case.get('started') or {}
     ref, problems = _reference(hist)
@@ -528,6 +548,8 @@ def check_case(case):
                       'outcomes': sorted(outcomes)}}
     if mode in ('stmt', 'snap'):
         res['counters']['stmt_points_inside_transaction'] = inside
+    if case.get('first_part'):
+        res['counters']['%s_%s_boundaries' % (hist, 'sys' if mode == 'sys' else 'stmt')] = case['n']
     if xchecked:
         res['counters']['kill_vs_snapshot_crosschecks'] = xchecked
     if nsig:
@@ -540,7 +562,4 @@ def _rank_text(r):
 
 
 def finalize(tot, tier, seed):
-    extra = {'histories': len(HISTS)}
-    for (h, mode), n in sorted(_PLAN.items()):
-        extra['%s_%s_boundaries' % (h, mode)] = n
-    return extra
+    return {'histories': len(HISTS)}
